@@ -8,3 +8,4 @@ CONSTANTS
   Travs <- AllTravs
   MaxSteps = 60
   ViewHist = 0
+  EmitAll = FALSE
